@@ -319,6 +319,12 @@ def compare(ctx, rule, instance, where, code, ref_poly, ref_dims=None, facts=Non
             return True
         rem = rem2
         syms, fnames = alg.leaf_syms(rem)
+    uninit = sorted(s_ for s_ in syms if s_.startswith('UNINIT#'))
+    if uninit and not {s_ for s_ in syms if not s_.startswith('UNINIT#') and s_ not in (set(vocab or ()) | {'INF', 'PI'}) and not s_.startswith('unit:') and not s_.startswith('idx:')} \
+            and not {f for f in fnames if f not in (BASE_FNS | set(fns or ()))}:
+        ctx.violation(rule, instance, where, 'the value depends on memory that nothing has written (a buffer from np.empty / empty_like read before it is filled): computed %s ; expected %s'
+                      % (alg.show(code.poly, 200), alg.show(ref_poly, 200)), 'uninitialised')
+        return False
     allowed_s = set(vocab or ()) | {'INF', 'PI'}
     allowed_f = BASE_FNS | set(fns or ())
     foreign = {s for s in syms if s not in allowed_s and not s.startswith('unit:') and not s.startswith('idx:')} | {f for f in fnames if f not in allowed_f}
